@@ -131,6 +131,9 @@ func resultNames(con *Contract, sig *types.Signature) []string {
 
 func (e *Exec) applyContractFull(con *Contract, fn *ssa.Function, sig *types.Signature, args []Value, nargs int, guard, caseLabel string) Value {
 	s := e.st
+	if con.NoFrame {
+		unsupportedf("call of %s, whose contract says 'modifies anything'", con.RawName)
+	}
 	e.usedCallees[con.Key] = true
 	names := contractParamNames(con, fn, len(args))
 	vars := map[string]Value{}
